@@ -338,7 +338,15 @@ def _run(tok):
         with _Prf(a[2]):
             for ch in a[3]:
                 try:
-                    c = nd.ckd(index=int(a[1])) if ch == "c" else nd.derive_path([int(a[1])])
+                    i_ = int(a[1])
+                    if ch == "c":
+                        c = nd.ckd(index=i_)
+                    elif ch == "g":         # the bulk entry point: the child inside a one-element interval
+                        c = nd.generate_children((i_, i_ + 1))[0]
+                    elif ch == "G":         # ... and as the last element of a longer interval
+                        c = nd.generate_children((max(0, i_ - 2), i_ + 1))[-1]
+                    else:
+                        c = nd.derive_path([i_])
                     outs.append(nodeS(c))
                 except Exception:
                     outs.append("err")
@@ -635,6 +643,22 @@ def cli_run(fs, osbytes, argv, keep=None):
             os.mkdir(path)
         elif fs == "noparent":
             path = os.path.join(tmp, "missing", "out.json")
+        # odd targets (real program only; outside the model's four classes): they pass or fail the validator in ways
+        # of their own, and writing to them fails late
+        elif fs == "parentfile":
+            with open(os.path.join(tmp, "plain"), "w") as f:
+                f.write("EXISTING")
+            path = os.path.join(tmp, "plain", "out.json")
+        elif fs == "trailslash":
+            path = os.path.join(tmp, "out.json") + "/"
+        elif fs == "longname":
+            path = os.path.join(tmp, "n" * 300 + ".json")
+        elif fs == "symloop":
+            os.symlink("loop", os.path.join(tmp, "loop"))
+            path = os.path.join(tmp, "loop", "out.json")
+        elif fs == "dangling":
+            os.symlink(os.path.join(tmp, "nowhere", "x.json"), os.path.join(tmp, "out.json"))
+            path = os.path.join(tmp, "out.json")
         # files that already live next to the target (editor back-ups, temporary and look-alike names): whatever the
         # program does, every one of them must be byte-identical afterwards
         sib_dir = os.path.dirname(path)
@@ -682,6 +706,11 @@ def cli_run(fs, osbytes, argv, keep=None):
             extra = [x for x in listing if x != "out.json"]
         elif fs == "dir":
             extra = [x for x in listing if x != "sub"] + os.listdir(path)
+        elif fs in ("parentfile", "trailslash", "longname", "symloop", "dangling"):
+            if fs == "parentfile" and open(os.path.join(tmp, "plain")).read() != "EXISTING":
+                return "overwrote-existing-file", {"status": status}
+            extra = [x for x in listing if x not in ("plain", "loop") and not (fs == "dangling" and x == "out.json"
+                                                                              and os.path.islink(os.path.join(tmp, x)))]
         else:
             extra = listing
         if extra:
